@@ -111,6 +111,21 @@ Theorem C05_gen_resolve_imaginary : forall d dt, shape d ->
 Proof. exact gen_resolve_imaginary_lemma. Qed.
 Print Assumptions C05_gen_resolve_imaginary.
 
+Theorem C05_gen_generic_is_ambiguous : forall (tz : tzobj) (UO : Z -> bool -> Z),
+  (forall dt, tz_utcoffset tz dt = Ok (UO (fst dt) (snd dt))) ->
+  forall dt, gen_generic_is_ambiguous tz dt = Ok (g_is_ambiguous UO (fst dt)).
+Proof. exact gen_generic_is_ambiguous_lemma. Qed.
+Print Assumptions C05_gen_generic_is_ambiguous.
+
+(* tz.datetime_ambiguous on a zone whose own is_ambiguous is unusable: the fold-comparison fallback *)
+Theorem C05_gen_datetime_ambiguous_fallback : forall (tz : tzobj) (UO DST : Z -> bool -> Z),
+  (forall dt, tz_utcoffset tz dt = Ok (UO (fst dt) (snd dt))) ->
+  (forall dt, tz_dst tz dt = Ok (DST (fst dt) (snd dt))) ->
+  forall dt, (exists e, tz_is_ambiguous tz dt = Err e) ->
+  gen_datetime_ambiguous tz dt = Ok (g_ambiguous_fallback UO DST (fst dt)).
+Proof. exact gen_datetime_ambiguous_fallback_lemma. Qed.
+Print Assumptions C05_gen_datetime_ambiguous_fallback.
+
 (* hand-modelled fragments (struct decoding and the derivation loops of _read_tzfile, one-line methods, glue)
    are unchanged since the hand model was validated against them *)
 From V Require Import tzfile.TzPinC05.
@@ -118,7 +133,6 @@ Theorem C05_pinned_fragments_unchanged :
   pinned_tz_tzfile__read_tzfile = true /\
   pinned_tz_tzutc_is_ambiguous = true /\
   pinned_tz_tzoffset_is_ambiguous = true /\
-  pinned__common__tzinfo_is_ambiguous = true /\
   pinned__common__tzinfo__fold = true.
 Proof. exact pins_C05_lemma. Qed.
 Print Assumptions C05_pinned_fragments_unchanged.
